@@ -71,14 +71,17 @@ int main()
     {
         std::istringstream in(line); std::string cmd, tag; double maxd, bias, thr; unsigned iters = 0; unsigned long tseed = 0;
         if (!(in >> cmd)) continue;
-        if (cmd == "RRTC")
+        if (cmd == "RRTC" || cmd == "RRTCN")
         {   // RRTC <maxDistance> W <nw> {w lo hi}* S <ns> {x y}* G <ng> {x y}* P <np> {x y}*   RRTConnect, one iteration per scripted sample
+            // RRTCN ... G <ng> {x y}* C <ncalls> { P <np> {x y}* }*                          several solve() calls on one planner
             double md; in >> md; int n2; std::vector<Wall> walls2; std::vector<std::pair<double, double>> st2, gl2;
             auto smp = std::make_shared<std::deque<std::pair<double, double>>>();
             in >> tag >> n2; for (int i = 0; i < n2; ++i) { Wall k; in >> k.w >> k.lo >> k.hi; walls2.push_back(k); }
             in >> tag >> n2; for (int i = 0; i < n2; ++i) { double x, y; in >> x >> y; st2.emplace_back(x, y); }
             in >> tag >> n2; for (int i = 0; i < n2; ++i) { double x, y; in >> x >> y; gl2.emplace_back(x, y); }
-            in >> tag >> n2; for (int i = 0; i < n2; ++i) { double x, y; in >> x >> y; smp->emplace_back(x, y); }
+            std::vector<std::vector<std::pair<double, double>>> ccalls;
+            if (cmd == "RRTCN") { int nc; in >> tag >> nc; for (int c = 0; c < nc; ++c) { ccalls.emplace_back(); in >> tag >> n2; for (int i = 0; i < n2; ++i) { double x, y; in >> x >> y; ccalls.back().emplace_back(x, y); } } }
+            else { ccalls.emplace_back(); in >> tag >> n2; for (int i = 0; i < n2; ++i) { double x, y; in >> x >> y; ccalls.back().emplace_back(x, y); } }
             auto space = std::make_shared<ob::RealVectorStateSpace>(2); space->setBounds(-100, 100);
             space->setStateSamplerAllocator([smp](const ob::StateSpace *sp) { return std::make_shared<ScriptSampler>(sp, smp); });
             auto si = std::make_shared<ob::SpaceInformation>(space);
@@ -92,7 +95,22 @@ int main()
             auto planner = std::make_shared<og::RRTConnect>(si);
             planner->setNearestNeighbors<ompl::NearestNeighborsLinear>(); planner->setRange(md);
             planner->setProblemDefinition(pdef); planner->setup();
-            planner->solve(ob::PlannerTerminationCondition([smp] { return smp->empty(); }));
+            std::vector<std::string> creps;
+            for (auto &cc : ccalls)
+            {
+                smp->clear(); for (auto &q : cc) smp->push_back(q);
+                pdef->clearSolutionPaths();
+                planner->solve(ob::PlannerTerminationCondition([smp] { return smp->empty(); }));
+                char buf[96]; std::string r;
+                if (pdef->hasSolution())
+                {
+                    auto path = std::dynamic_pointer_cast<og::PathGeometric>(pdef->getSolutionPath());
+                    if (pdef->hasApproximateSolution()) { std::snprintf(buf, sizeof buf, " | 1 1 %016llx |", bits(pdef->getSolutionDifference())); r += buf; } else r += " | 1 0 |";
+                    for (std::size_t i = 0; i < path->getStateCount(); ++i) { const double *v = path->getState(i)->as<ob::RealVectorStateSpace::StateType>()->values; std::snprintf(buf, sizeof buf, " %016llx %016llx;", bits(v[0]), bits(v[1])); r += buf; }
+                }
+                else r = " | 0 |";
+                creps.push_back(r);
+            }
             auto dump = [&](const std::shared_ptr<ompl::NearestNeighbors<og::RRTConnect::Motion *>> &t)
             {
                 std::vector<og::RRTConnect::Motion *> ms; t->list(ms);
@@ -100,14 +118,8 @@ int main()
                 std::printf(" %zu;", ms.size());
                 for (auto *m : ms) { const double *v = m->state->as<ob::RealVectorStateSpace::StateType>()->values; std::printf(" %016llx %016llx %ld;", bits(v[0]), bits(v[1]), m->parent ? idx[m->parent] : -1L); }
             };
-            std::printf("rrtc"); dump(planner->tStart_); std::printf(" /"); dump(planner->tGoal_);
-            if (pdef->hasSolution())
-            {
-                auto path = std::dynamic_pointer_cast<og::PathGeometric>(pdef->getSolutionPath());
-                if (pdef->hasApproximateSolution()) std::printf(" | 1 1 %016llx |", bits(pdef->getSolutionDifference())); else std::printf(" | 1 0 |");
-                for (std::size_t i = 0; i < path->getStateCount(); ++i) { const double *v = path->getState(i)->as<ob::RealVectorStateSpace::StateType>()->values; std::printf(" %016llx %016llx;", bits(v[0]), bits(v[1])); }
-            }
-            else std::printf(" | 0 |");
+            std::printf("%s", cmd == "RRTCN" ? "rrtcn" : "rrtc"); dump(planner->tStart_); std::printf(" /"); dump(planner->tGoal_);
+            for (auto &r : creps) std::printf("%s", r.c_str());
             std::printf("\n"); std::fflush(stdout);
             continue;
         }
